@@ -396,7 +396,7 @@ impl Device {
 }
 
 /// Error kinds a refusing device may report.
-pub const ERR_KINDS: [serial_core::ErrorKind; 7] = [
+pub const ERR_KINDS: [serial_core::ErrorKind; 9] = [
     serial_core::ErrorKind::Io(io::ErrorKind::Interrupted),
     serial_core::ErrorKind::NoDevice,
     serial_core::ErrorKind::InvalidInput,
@@ -404,6 +404,10 @@ pub const ERR_KINDS: [serial_core::ErrorKind; 7] = [
     serial_core::ErrorKind::Io(io::ErrorKind::Unsupported),
     serial_core::ErrorKind::Io(io::ErrorKind::TimedOut),
     serial_core::ErrorKind::Io(io::ErrorKind::Other),
+    // I/O kinds that serial-core's own conversions between `Error` and `io::Error` fold into the
+    // two kinds above: an error that takes a round trip through `io::Error` comes back changed
+    serial_core::ErrorKind::Io(io::ErrorKind::NotFound),
+    serial_core::ErrorKind::Io(io::ErrorKind::InvalidInput),
 ];
 
 /// The byte-moving half of a simulated port.
